@@ -695,6 +695,12 @@ def mergeLoop (dst src : Nat) (forward : Bool) : Nat → Nat → SM Unit
       addDefS dst it forward
       mergeLoop dst src forward fuel (j + 1)
 
+/-- the test of the assignment target in `mergeVarDeclExprStmt`: its `Var` object has `Decl == VariableDecl` and (since
+    7a74d62, `Gen.JsHoistFacts.mergeChecksOwnFunction`) it is declared in the function of the declaration
+    (`declaredInFunc`; `own` = the `var` names of that function) -/
+def mergeAllowed (own : List String) (a : Ann) (x : String) : Bool :=
+  a.decl == 1 && (!mergeChecksOwnFunction || own.contains x)
+
 /-- `mergeVarDecls(dst, src, forward)` -/
 def mergeDeclsS (dst src : Nat) (forward : Bool) : SM Unit := do
   let v ← getVD src
@@ -714,7 +720,7 @@ def mergeCommaS (dst : Nat) (forward : Bool) : List DE → SM (List DE)
     | .assign x a e =>
       do
         let own ← read
-        if a.decl == 1 && (!mergeChecksOwnFunction || own.contains x) then do
+        if mergeAllowed own a x then do
           addDefS dst (.assign x a e) forward; mergeCommaS dst forward t
         else pure (it :: t)
     | _ => pure (it :: t)
@@ -732,7 +738,7 @@ def mergeDeclExprS (dst : Nat) (v : DE) (forward : Bool) : SM (Option DE) :=
   | .assign x a e =>
     do
       let own ← read
-      if a.decl == 1 && (!mergeChecksOwnFunction || own.contains x) then do
+      if mergeAllowed own a x then do
         addDefS dst (.assign x a e) forward; pure none
       else pure (some v)
   | _ => pure (some v)
